@@ -10,10 +10,12 @@
     strict DER decoding, ECDSA verification over secp256k1 (`Crypto.Secp256k1`).
 
   `_CheckSig` ignores the error indication of `RawSignatureHash` (the HASH_ONE cases) and uses the
-  returned digest.  The Python exceptions `RawSignatureHash` can raise are explicit in
-  `Model.ScriptEval.checkSig` (malformed subscript, negative `inIdx`) or excluded by the
-  transaction being in wire range (`fromTx`, `struct.pack`): on those inputs this function answers
-  `false`, a branch the theorems of Props/C06Concrete.lean never reach.
+  returned digest.  Every Python exception `RawSignatureHash` can raise is an outcome of
+  `Ctx.sigHash` and propagates through `Model.ScriptEval.checkSig`: CScriptInvalidError (malformed
+  script code), IndexError (negative `inIdx` below −|vin| or, under SIGHASH_SINGLE, below −|vout|:
+  known finding D7), ValueError / struct.error (transaction outside wire range).  For
+  −|vin| ≤ inIdx < 0 Python raises nothing and hashes for the input counted from the end, with every
+  sequence number zeroed under NONE / SINGLE: `rawSignatureHashNeg`.
   The driver (Driver/C06.lean) evaluates exactly this term.  Mathlib-free.
 -/
 import BtcVerif.Model.ScriptEval
@@ -37,17 +39,47 @@ def ecdsaCheck (body pubkey digest : Bytes) : Bool :=
 def realHashes : Hashes :=
   { sha1 := Crypto.sha1, ripemd160 := Crypto.ripemd160, sha256 := Crypto.sha256 }
 
-/-- the part of `_CheckSig` after the hash-type byte has been split off -/
-def realSigCheck (tx : Tx) (inIdx : Nat) : SigCheck := fun body pubkey scriptCode hashType =>
-  match Model.Sighash.rawSignatureHash scriptCode tx inIdx (hashType : Int) with
-  | .ok (digest, _) => ecdsaCheck body pubkey digest
-  | .error _ => false
+/-- `RawSignatureHash(script, txTo, inIdx, hashtype)` for a NEGATIVE `inIdx`, statement by statement.
+    `inIdx >= len(txTo.vin)` is false; `txtmp.vin[inIdx]` counts from the end (IndexError below
+    −|vin|: known finding D7); `i != inIdx` holds for every `i`, so NONE / SINGLE zero EVERY
+    sequence number; under SINGLE `outIdx = inIdx` is negative too: `txtmp.vout[outIdx]` counts from
+    the end (IndexError below −|vout|) and `range(outIdx)` is empty, so that output is the only one. -/
+def rawSignatureHashNeg (script : Bytes) (txTo : Tx) (inIdx : Int) (hashtype : Int) : Res (Bytes × Bool) := do
+  let txtmp ← Model.Sighash.fromTx txTo
+  let vin0 := txtmp.vin.map (fun i => { i with scriptSig := [] })
+  let sc ← Model.Sighash.findAndDelete script [0xab]
+  if (vin0.length : Int) < -inIdx then .error indexError else
+  let k := ((vin0.length : Int) + inIdx).toNat
+  let signed ← Model.Sighash.pyGetNat vin0 k
+  let vin1 := vin0.set k { signed with scriptSig := sc }
+  let zeroAll := vin1.map (fun i => { i with nSequence := 0 })
+  let pr : List TxIn × List TxOut ←
+    if hashtype % 32 = 2 then .ok (zeroAll, [])
+    else if hashtype % 32 = 3 then
+      (if (txtmp.vout.length : Int) < -inIdx then .error indexError
+       else do
+        let tmp ← Model.Sighash.pyGetNat txtmp.vout ((txtmp.vout.length : Int) + inIdx).toNat
+        .ok (zeroAll, [tmp]))
+    else .ok (vin1, txtmp.vout)
+  let vin3 ← if (hashtype / 128) % 2 ≠ 0 then (do let tmp ← Model.Sighash.pyGetNat pr.1 k; pure [tmp]) else pure pr.1
+  let s ← Model.Wire.serTx { txtmp with vin := vin3, vout := pr.2, wit := [] }
+  let h ← Model.Wire.packI 4 hashtype
+  pure (Crypto.hash256 (s ++ h), false)
 
-def realEnv (tx : Tx) (inIdx : Nat) : Env :=
-  { hashes := realHashes, sigCheck := realSigCheck tx inIdx }
+/-- `RawSignatureHash` for any Python int index: C03's model for `inIdx ≥ 0`, the wrap-around
+    transcription above otherwise -/
+def rawSignatureHashInt (script : Bytes) (txTo : Tx) (inIdx : Int) (hashtype : Int) : Res (Bytes × Bool) :=
+  if 0 ≤ inIdx then Model.Sighash.rawSignatureHash script txTo inIdx.toNat hashtype
+  else rawSignatureHashNeg script txTo inIdx hashtype
 
-/-- the context of `EvalScript(stack, script, txTo, inIdx, flags)` -/
+/-- the context of `EvalScript(stack, script, txTo, inIdx, flags)` / `VerifyScript(…, txTo, inIdx, flags)`:
+    `_CheckSig` uses the digest and ignores the error indication -/
 def realCtx (tx : Tx) (inIdx : Int) : Ctx :=
-  { env := realEnv tx inIdx.toNat, inIdx := inIdx, nVin := tx.vin.length, nVout := tx.vout.length }
+  { hashes := realHashes
+    sigHash := fun script ht => (rawSignatureHashInt script tx inIdx (ht : Int)).map (·.1)
+    sigVerify := ecdsaCheck }
+
+/-- the reference's environment for the same transaction and input -/
+def realEnv (tx : Tx) (inIdx : Int) : Env := (realCtx tx inIdx).env
 
 end BtcVerif.Model.ScriptEval.Real
